@@ -110,6 +110,9 @@ func decSum(a, b *DecV, sub bool) *DecV {
 	r := &DecV{}
 	if sub {
 		r.L = a.L.Sub(b.L)
+		if b.L.IsConst() && b.L.C.Sign() <= 0 {
+			r.NonNeg, r.Pos = a.NonNeg, a.Pos
+		}
 	} else {
 		r.L = a.L.Add(b.L)
 		r.NonNeg = a.NonNeg && b.NonNeg
@@ -369,6 +372,30 @@ func (x *Explorer) intrinsic(fr *Frame, st *State, ins *ssa.Call, callee *ssa.Fu
 			return &Sym{N: name, T: ins.Type()}, true
 		case "NewCoin":
 			amt := asInt(st, args[1])
+			// was the amount provably ≥ 0 BEFORE this call (NewCoin panics otherwise)?
+			proven := amt.NonNeg || amt.L.C.Sign() >= 0
+			if !amt.NonNeg {
+				for a, cf := range amt.L.T {
+					at := st.atomAttr[a]
+					if cf.Sign() < 0 || at == nil || !at.NonNeg {
+						if !(cf.Sign() >= 0 && (strings.HasPrefix(a, "bankbal(") || storedLedgerAtom.MatchString(a))) {
+							proven = false
+						}
+					}
+				}
+			}
+			pv := kFalse
+			if proven {
+				pv = kTrue
+			}
+			defer func() {
+				for i := len(st.events) - 1; i >= 0; i-- {
+					if st.events[i].Kind == "call" && st.events[i].Method == "NewCoin" {
+						st.events[i].Args = append(st.events[i].Args, pv)
+						break
+					}
+				}
+			}()
 			// sdk.NewCoin panics on a negative amount: on the continuing path the amount is ≥ 0
 			if len(amt.L.T) == 1 && amt.L.C.Sign() == 0 {
 				for a, cf := range amt.L.T {
@@ -536,6 +563,20 @@ func (x *Explorer) intrinsic(fr *Frame, st *State, ins *ssa.Call, callee *ssa.Fu
 			}
 			return &Sym{N: "time(" + s + ")", T: ins.Type()}, true
 		}
+	}
+	// gogo ⇄ pulsar converters copy every field of `from` into `to`
+	if (callee.Name() == "GogoToPulsarSlow" || callee.Name() == "gogoToProtoReflect" || callee.Name() == "PulsarToGogoSlow") && len(args) == 2 && isRepoPkgPath(pkg) {
+		if p, ok := args[1].(*Ptr); ok {
+			if o := st.mem[p.O]; o != nil {
+				o.Kind = "row"
+				o.Name = "conv(" + st.canon(args[0]) + ")"
+				o.Origin = "converted"
+				for k := range o.F {
+					delete(o.F, k)
+				}
+			}
+		}
+		return newErr(st, "convert", 0), true
 	}
 	// generated ORM index keys: <T><Fields>IndexKey.With<Fields>(values…)
 	if strings.Contains(pkg, "/api/v2/") && strings.HasPrefix(callee.Name(), "With") && callee.Signature.Recv() != nil && len(args) >= 1 {
